@@ -176,6 +176,17 @@ int main(int argc, char** argv) {
       nums.push_back(ref::Value::mkD(y));
       nums.push_back(ref::Value::mkD(-y));
     }
+    // doubles >= 2^54 with odd significands (interval end points are integers there: the tie rules of the
+    // shortest-digit printer decide whether the text reads back), 32 patterns per binade 2^54..2^80
+    for (int e = 54; e <= 80; e++)
+      for (uint64_t k = 0; k < 32; k++) {
+        uint64_t frac = (k * 0x9E3779B97F4A7ull + 1) & ((1ull << 52) - 1);
+        frac |= 1;
+        uint64_t b = ((uint64_t)(1023 + e) << 52) | frac;
+        double y;
+        std::memcpy(&y, &b, 8);
+        nums.push_back(ref::Value::mkD(y));
+      }
     // sint values must be negative to be Sint in the model
     for (auto& v : nums)
       if (v.k == ref::Sint && (int64_t)v.u >= 0) v.k = ref::Uint;
@@ -184,7 +195,7 @@ int main(int argc, char** argv) {
   t3.count = nums.size();
   t3.group = "T3";
   t3.chunk = 16;
-  t3.rule = "boundary 64-bit integers (2^k+-1, 10^k+-1, extremes, both signs) and doubles (format switch points, extremes, +-2ulp neighbours, every third binary exponent) set through the API at the root, in an array and as object values: kinds must survive the round trip";
+  t3.rule = "boundary 64-bit integers (2^k+-1, 10^k+-1, extremes, both signs) and doubles (format switch points, extremes, +-2ulp neighbours, every third binary exponent, 32 odd significands in every binade 2^54..2^80) set through the API at the root, in an array and as object values: kinds must survive the round trip";
   t4.name = "T4_nonfinite";
   t4.count = 3 * 6;
   t4.group = "T4";
